@@ -160,6 +160,12 @@ class SetEncoder(encoder.SequenceEncoder):
         else:
             return asn1Spec.tagSet
 
+    def _outermostTagSortKey(self, componentAndType):
+        # canonical order of SET components is defined by their outermost
+        # tags (X.690 9.3, 10.3), the one `TagSet` keeps last
+        tagSet = self._componentSortKey(componentAndType)
+        return tagSet and tagSet[-1] or tagSet
+
     def encodeValue(self, value, asn1Spec, encodeFun, **options):
 
         substrate = null
@@ -211,7 +217,7 @@ class SetEncoder(encoder.SequenceEncoder):
                 compsMap[id(component)] = namedType
                 comps.append((component, asn1Spec[idx]))
 
-        for comp, compType in sorted(comps, key=self._componentSortKey):
+        for comp, compType in sorted(comps, key=self._outermostTagSortKey):
             namedType = compsMap[id(comp)]
 
             if namedType:
